@@ -695,3 +695,58 @@ Proof. intros Hh Hal Hok Hcb. apply oracle_history_shared; auto.
   pose proof (handed_over_inv (h_init h) (h_tlen h) (h_mtu h) (h_session h) (h_stream h) (h_n0 h) (h_off0 h) Hg Hn Ho) as Hinv.
   apply (cleaned_between_ok m rv ops _ (h_n0 h) (h_off0 h) false Hinv Hok); [|exact Hcb].
   intros _. apply handover_next_empty. exact Hh. Qed.
+
+(* ---- states reachable under the cleaning contract from an aligned hand-over point ---- *)
+Theorem content_run m rv ops : forall s n off,
+  pub_inv n off s -> content_inv (ps_log s) n off -> mtu_aligned (ps_log s) -> hist_ok (ps_log s) ops ->
+  clean_before_reuse m rv s ops ->
+  exists n' off', pub_inv n' off' (pub_run m rv s ops) /\ content_inv (ps_log (pub_run m rv s ops)) n' off' /\
+                  mtu_aligned (ps_log (pub_run m rv s ops)).
+Proof. induction ops as [|o r IH]; intros s n off Hinv Hc Hal Hok Hcl; [exists n, off; auto|].
+  inversion Hok as [|? ? Ho Hr]; subst. destruct Hcl as [Hcl1 Hcl2]. cbn [pub_run].
+  destruct (content_step m rv s n off o Hinv Hc Hal Ho Hcl1) as (n' & off' & Hinv' & Hc' & Hg').
+  apply (IH _ n' off'); auto.
+  - destruct Hg' as (_ & _ & G3 & _). unfold mtu_aligned. rewrite <- G3. exact Hal.
+  - eapply Forall_impl; [|exact Hr]. intros a. apply op_ok_same. destruct Hg' as (_ & H & _). exact H. Qed.
+
+Definition creachable (m : mode) (rv : Z -> Z -> list Z -> Z) (s : pubstate) : Prop :=
+  exists h ops, handover_ok h /\ handover_aligned h /\ hist_ok (handover_log h) ops /\
+                clean_before_reuse m rv (pub_init (handover_log h)) ops /\ s = pub_run m rv (pub_init (handover_log h)) ops.
+
+Lemma creachable_inv m rv s : creachable m rv s ->
+  exists n off, pub_inv n off s /\ content_inv (ps_log s) n off /\ mtu_aligned (ps_log s).
+Proof. intros (h & ops & Hh & Hal & Hok & Hcl & ->). destruct (handover_content h Hh Hal) as [Hc Hma].
+  destruct Hh as (Hg & Hn & Ho).
+  pose proof (handed_over_inv (h_init h) (h_tlen h) (h_mtu h) (h_session h) (h_stream h) (h_n0 h) (h_off0 h) Hg Hn Ho) as Hinv.
+  apply (content_run m rv ops _ (h_n0 h) (h_off0 h)); assumption. Qed.
+
+Lemma creachable_reachable m rv s : creachable m rv s -> reachable m rv s.
+Proof. intros (h & ops & Hh & _ & Hok & _ & ->). exists h, ops. auto. Qed.
+
+(* accepted: the oracle's `appended_words` with the tail offset and the required length *)
+Lemma accept_appended_words m rv s n off o s0 r0 s' p :
+  pub_inv n off s -> content_inv (ps_log s) n off -> mtu_aligned (ps_log s) -> op_ok (ps_log s) o -> is_append o = true ->
+  pub_step m rv s o = (s', Ok p) ->
+  appended_words (o_dump (pub_obs m s0 s r0)) (o_dump (pub_obs m s s' (Ok p))) off (op_required (ps_log s) o) = true.
+Proof. intros Hinv Hc Hal Hok Ha Hs.
+  destruct (pub_step_wrote m rv s n off o s' p Hinv Hal Hok Ha Hs) as (es & W1 & W2 & W3 & Hfit).
+  pose proof (mod3_range n) as M0. pose proof (mod3_range (n+1)) as M1. pose proof (mod3_range (n+2)) as M2.
+  pose proof (mod3_distinct n) as (D1 & D2 & D3). destruct (mod3_succ n) as [S1 S2].
+  unfold appended_words. rewrite (p_active m s n off Hinv). rewrite S1, S2.
+  unfold pub_obs, o_dump. cbn [fst snd]. rewrite !d_part_delta by assumption.
+  rewrite W3. rewrite part_set_part_same by assumption. rewrite !part_set_part_other by auto. rewrite !part_set_tail.
+  rewrite !words_eqb_nil_same. rewrite !Bool.andb_true_r.
+  destruct Hc as (Hoff32 & Hend & Hsp). pose proof (pi_n _ _ _ Hinv) as Hn.
+  pose proof (term_end_nonneg es (wf_spans es W1)) as Hes. rewrite W2 in Hes.
+  assert (Hend' : term_end (part (ps_log s) (n mod 3)) = off) by (rewrite Hend; lia).
+  destruct (appended_render _ off es Hend' Hsp W1) as [E1 E2]. rewrite E1. rewrite <- W2.
+  apply offs_in_forallb. exact E2. Qed.
+
+Lemma creachable_cleaned m rv h ops :
+  handover_ok h -> handover_aligned h -> hist_ok (handover_log h) ops -> cleaned_between false ops ->
+  creachable m rv (pub_run m rv (pub_init (handover_log h)) ops).
+Proof. intros Hh Hal Hok Hcb. exists h, ops. split; [exact Hh|]. split; [exact Hal|]. split; [exact Hok|]. split; [|reflexivity].
+  pose proof Hh as (Hg & Hn & Ho).
+  pose proof (handed_over_inv (h_init h) (h_tlen h) (h_mtu h) (h_session h) (h_stream h) (h_n0 h) (h_off0 h) Hg Hn Ho) as Hinv.
+  apply (cleaned_between_ok m rv ops _ (h_n0 h) (h_off0 h) false Hinv Hok); [|exact Hcb].
+  intros _. apply handover_next_empty. exact Hh. Qed.
